@@ -280,6 +280,7 @@ pub fn run(ctx: &mut Ctx) {
 
     // ---- (3) bounded-exhaustive tails and RDATA bodies --------------------------------------
     let alpha: [u8; 10] = [0x00, 0x01, 0x02, 0x3F, 0x40, 0xC0, 0x0C, 0x29, 0xFF, b'a'];
+    ctx.set_enumerated(true);
     if ctx.family_active("tail") {
         let l_max = if ctx.slow_tool { 2 } else { tier.pick(5usize, 7usize) };
         let mut idx = 0u64;
@@ -344,6 +345,7 @@ pub fn run(ctx: &mut Ctx) {
         ctx.sample("rdbody", || json!({"alphabet": hex(&alpha), "max_rdlength": l_max, "types": 42}));
     }
 
+    ctx.set_enumerated(false); // pointer graphs can coincide (different target indices, same offset): hashed
     // ---- (4) pointer graphs ------------------------------------------------------------------
     if ctx.family_active("ptrgraph") && !ctx.slow_tool {
         // body = three pieces, each: optional label, then a pointer to target t
@@ -393,6 +395,7 @@ pub fn run(ctx: &mut Ctx) {
         ctx.sample("ptrgraph", || json!({"example": hex(&pointer_graph(2, 5, &[3, 7, 12]))}));
     }
 
+    ctx.set_enumerated(false);
     // ---- (5) amplification -------------------------------------------------------------------
     if ctx.family_active("amplify") && !ctx.slow_tool {
         let cases = amplification_inputs();
